@@ -58,7 +58,19 @@ class Source(Stream):
         if self.stopped:
             self.stopped = False
             self.started = True
-            self.loop.add_callback(self.run)
+            if not getattr(self, '_run_active', False):
+                # a previous run() may still be suspended (sleeping, or waiting for
+                # downstream); it carries on, so do not start a second one
+                self._run_active = True
+                self.loop.add_callback(self._run_guarded)
+
+    async def _run_guarded(self):
+        try:
+            result = self.run()
+            if isawaitable(result):
+                await result
+        finally:
+            self._run_active = False
 
     async def run(self):
         """This coroutine will be invoked by start() and emit all data
